@@ -5,7 +5,7 @@
    fixes/C44-shadowed-endpoint-bookkeeping.patch. *)
 From Coq Require Import List NArith Bool Lia.
 Import ListNotations.
-From Verif.C44 Require Import Model Spec MapLemmas Proofs.
+From Verif.C44 Require Import Model Spec MapLemmas Proofs Fixed.
 Open Scope N_scope.
 
 (* One endpoint per interface (pinned and fixed code, every history, every iteration order): two active
@@ -65,3 +65,38 @@ Example wit_c_fixed : final_ok true wit_c = true. Proof. vm_compute. reflexivity
 Example wit_c_other_order :
   final_ok false [([Upd lo (mkEp 0 true 1 [4])], []); ([Upd hi (mkEp 0 true 2 [8])], []); ([Rem lo; Rem hi], [1%nat; 0%nat])] = true.
 Proof. vm_compute. reflexivity. Qed.
+
+(* ---------- the repaired code (fx = true), every history, every iteration order ---------- *)
+
+(* Nothing is left for interface names no live endpoint uses: after a completed CompleteDeferredWork
+   (pending map drained) an interface name that no endpoint of the folded history S claims has no active
+   endpoint, no chains and no routes.  (c44_no_leftovers_refuted shows this is false of the pinned code.) *)
+Theorem c44_no_leftovers :
+  forall bs n, let s := run true st0 bs in let S := live_of (concat (map fst bs)) in
+    pend s = [] -> (forall i w, dget S i = Some w -> e_if w <> n) ->
+    iget (o_ids (observe s)) n = None /\ iget (o_tw (observe s)) n = None /\ iget (o_fw (observe s)) n = None
+    /\ iget (o_routes (observe s)) n = None.
+Proof. exact no_leftovers. Qed.
+Print Assumptions c44_no_leftovers.
+
+(* PARTIAL towards "the active endpoint of i is preferred S i": whatever endpoint the repaired manager has made
+   active on an interface is a LIVE endpoint of S that claims this interface, and the chains and routes found
+   there are those of its LATEST update (no stale data), independently of the iteration order.
+   Missing for the full statement: that this endpoint is the least claimant in wlIdsAscending order and that an
+   interface claimed by some live endpoint always has an active one (the coverage invariant "every shadowed
+   endpoint has a smaller active or pending one on its interface" was not mechanised in the time available);
+   that part is checked only by the oracle of the correspondence run. *)
+Theorem c44_active_is_live_claimant_partial :
+  forall bs n i, let s := run true st0 bs in let S := live_of (concat (map fst bs)) in
+    pend s = [] -> iget (o_ids (observe s)) n = Some i ->
+    exists w, dget S i = Some w /\ e_if w = n
+              /\ iget (o_tw (observe s)) n = Some (chains_of w) /\ iget (o_fw (observe s)) n = Some (chains_of w)
+              /\ routes_at (observe s) n = routes_of w.
+Proof. exact programmed_is_live. Qed.
+Print Assumptions c44_active_is_live_claimant_partial.
+
+(* hypotheses are satisfiable by a non-trivial state: three endpoints, two on one interface, one renamed *)
+Example ex_fixed_nontrivial :
+  let bs := [([Upd lo (mkEp 0 true 1 [4]); Upd hi (mkEp 0 true 2 [8])], [1%nat]); ([Upd lo (mkEp 1 false 3 [12])], [])] in
+  pend (run true st0 bs) = [] /\ o_ids (observe (run true st0 bs)) = [(0, hi); (1, lo)].
+Proof. vm_compute. auto. Qed.
